@@ -310,15 +310,16 @@ fn check_report(rep: &str, m: &Maps, tb: &Tables, via: &str, c11: bool, out: &mu
 // ------------------------------------------------------------------------------ findings maps
 
 fn lines_of(k: usize) -> BTreeSet<i32> {
-    match k % 5 {
+    match k % 6 {
         0 => [1].into_iter().collect(),
         1 => [1, 2, 10].into_iter().collect(),
         2 => [0].into_iter().collect(),
         3 => [2147483647].into_iter().collect(),
+        4 => [-1, -7, i32::MIN, 5].into_iter().collect(),
         _ => [7, 8].into_iter().collect(),
     }
 }
-const NAMES: &[&str] = &["A.sol", "a b.sol", "x:9.sol", "é.sol", "- y.sol", "## High Risk.sol", "A.sol", "B.sol:4", "Total Optimizations 9.sol", "Vault<T>.sol", "a&b.sol", "*bold*.sol", "[x](y).sol", "back`tick.sol", "tab\tname.sol"];
+const NAMES: &[&str] = &["A.sol", "a b.sol", "x:9.sol", "é.sol", "- y.sol", "## High Risk.sol", "A.sol", "B.sol:4", "Total Optimizations 9.sol", "Vault<T>.sol", "a&b.sol", "*bold*.sol", "[x](y).sol", "back`tick.sol", "tab\tname.sol", "Deploy.s.sol", "Invariant.t.sol", "Handler.T.SOL", "x.sol.bak"];
 
 fn files_variant(k: usize, nfiles: usize) -> Files {
     (0..nfiles).map(|j| (NAMES[(k + j * 3) % NAMES.len()].to_string(), lines_of(k + j))).collect()
@@ -361,6 +362,18 @@ pub fn map_space(tb: &Tables, tier: Tier) -> Vec<Maps> {
         out.push(Maps { v: vec![], o: vec![], q: vec![(i % nq, empty_files.clone())] });
         out.push(Maps { v: vec![], o: vec![], q: vec![(i % nq, empty_lines.clone()), ((i + 1) % nq, real.clone())] });
         out.push(Maps { v: vec![(i % nv, real.clone())], o: vec![(i, empty_files.clone())], q: vec![((i + 2) % nq, empty_files.clone())] });
+    }
+    // one pattern whose files mix empty and non-empty line sets; very many findings for one pattern
+    for i in 0..nv.max(nq) {
+        let mixed: Files = vec![("Vault.sol".into(), BTreeSet::new()), ("Wallet.sol".into(), [7].into_iter().collect()), ("Zed.sol".into(), BTreeSet::new())];
+        out.push(Maps { v: vec![(i % nv, mixed.clone())], o: vec![], q: vec![] });
+        out.push(Maps { v: vec![], o: vec![(i * 3, mixed.clone())], q: vec![] });
+        out.push(Maps { v: vec![], o: vec![], q: vec![(i % nq, mixed.clone())] });
+    }
+    for (nfiles, nlines) in [(1usize, 1001usize), (3, 1100), (101, 1), (150, 2), (1200, 1)] {
+        let many: Files = (0..nfiles).map(|f| (format!("F{:04}.sol", f), (1..=nlines as i32).map(|l| l * 3).collect())).collect();
+        out.push(Maps { v: vec![], o: vec![(nfiles % no, many.clone())], q: vec![] });
+        out.push(Maps { v: vec![(nfiles % nv, many.clone())], o: vec![], q: vec![(nfiles % nq, many)] });
     }
     // QA: all subsets
     for mask in 0u32..(1 << nq) {
@@ -663,6 +676,54 @@ pub fn c13(tier: Tier) -> i32 {
             let files: Vec<Files> = (0..k).map(|i| f(i + start, if i == 0 { 2 + (start % 2) } else { 1 })).collect();
             c13_one(&keys, &files, &|m| generate_optimization_report(m), "optimization_report", &mut vs, &mut stats);
         }
+    }
+    // very many files for one pattern: forward, reversed and rotated discovery orders through generate_report
+    {
+        let dir = scratch_dir("c13many");
+        let old = std::env::current_dir().ok();
+        std::env::set_current_dir(&dir).expect("cannot enter scratch directory");
+        for n in [2usize, 100, 101, 150, 1001] {
+            let base: Files = (0..n).map(|f| (format!("F{:04}.sol", (f * 7919) % 10007), [(f % 5) as i32 + 1].into_iter().collect())).collect();
+            let mut orders: Vec<Files> = vec![base.clone(), base.iter().rev().cloned().collect()];
+            let mut rot = base.clone();
+            rot.rotate_left(n / 3 + 1);
+            orders.push(rot);
+            let mut first: Option<String> = None;
+            for o in orders {
+                let mut vm = HashMap::new();
+                vm.insert(tb.vulns[0], o.clone());
+                let mut om = HashMap::new();
+                om.insert(tb.opts[n % tb.opts.len()], o.clone());
+                let mut qm = HashMap::new();
+                qm.insert(tb.qas[0], o);
+                stats.1 += 1;
+                if util::guarded(|| generate_report(vm, om, qm)).is_err() {
+                    continue;
+                }
+                let text = std::fs::read_to_string(dir.join("solstat_report.md")).unwrap_or_default();
+                match &first {
+                    None => first = Some(text),
+                    Some(f0) => {
+                        if *f0 != text {
+                            vs.push(Violation {
+                                site: "generate_report:file-discovery-order:many-files".into(),
+                                input: format!("{} files for one pattern in forward / reversed / rotated order", n),
+                                expected: "byte-identical reports".into(),
+                                observed: "reports differ".into(),
+                                size: n,
+                                unit_test: String::new(),
+                                extra: json!({}),
+                            });
+                        }
+                    }
+                }
+            }
+            stats.0 += 1;
+        }
+        if let Some(o) = old {
+            let _ = std::env::set_current_dir(o);
+        }
+        let _ = std::fs::remove_dir_all(&dir);
     }
     run.merge_violations(vs);
     if !stats.3 {
